@@ -1,6 +1,7 @@
 import RactorModel.Lemmas.LeakyBucket
 import RactorModel.Lemmas.FactoryFrame
 import RactorModel.Extracted
+import RactorModel.Lemmas.FactoryCountW
 
 /-!
 # C15 — Factory capacity controls: limits, rate, pool size, draining
@@ -180,6 +181,29 @@ theorem limit_worker_oldest (p : WP) (e : Env) (j : Job) (L : Nat) (hd : p.disc 
 theorem extracted_pool_maximum : Extracted.globalWorkerPoolMaximum = some Factory.GLOBAL_WORKER_POOL_MAXIMUM := by decide
 theorem extracted_calculate_frequency :
     Extracted.calculateFrequencyMs.map (· * 1000000) = some Factory.CALCULATE_FREQUENCY := by decide
+
+/-! ### Finding F5 (fixed) on its concrete witness
+
+`corpus/C15/e-lts-f5_death_while_draining.ops`: worker 1 is flagged draining by the shrink, dies,
+is replaced and — since the fix — retired at once: the pool converges to the requested size. -/
+open Factory in
+def f5Case : CaseCfg :=
+  { cfg := { router := .q, prioQueue := false, hasHandler := true, table := [], hasCC := false }, n := 2, disc := none, rl := none }
+open Factory in
+def f5Info : Info := { router := .q, prioQueue := false, hasHandler := true, n := 2, disc := none, rl := none }
+open Factory in
+def f5Steps : List Step :=
+  [⟨.nop, 0, 2000000, 3000000⟩,
+   ⟨.dispatch 1 0 13646096770106105413 none false, 3000000, 4000000, 5000000⟩,
+   ⟨.dispatch 2 1 2206609067086327257 none false, 5000000, 6000000, 7000000⟩,
+   ⟨.resize 1, 7000000, 8000000, 9000000⟩,
+   ⟨.finish 1 false, 9000000, 10000000, 11000000⟩,
+   ⟨.finish 0 true, 11000000, 12000000, 13000000⟩,
+   ⟨.nop, 13000000, 14000000, 15000000⟩]
+open Factory in
+example : ((init f5Case).runSteps f5Steps).live = [0] := by decide +kernel
+open Factory in
+example : C15.capacityOk f5Info ((init f5Case).runSteps f5Steps).env.log = true := by decide +kernel
 
 /-! ### Non-vacuity -/
 
